@@ -173,7 +173,8 @@ ARENA = [
     ("a-l-wrapping", "`wrapping_add` in allocate_memory", "lost", [(S, sub("if self.memory_usage + requested_mem > self.max_memory_usage {", "if self.memory_usage.wrapping_add(requested_mem) > self.max_memory_usage {"))]),
     ("a-l-checked-mul", "`checked_mul(2).unwrap()`", "lost", [(S, sub("self.bucket_capacity.get() * 2;", "self.bucket_capacity.get().checked_mul(2).unwrap();"))]),
     ("a-l-extra-field", "a fifth field in struct Arena", "lost", [(S, sub("    memory_usage: usize,\n    pub(crate)", "    memory_usage: usize,\n    spare: usize,\n    pub(crate)"))]),
-    ("a-l-shadow", "a shadowing `let len = len;`", "lost", [(S, sub("        debug_assert_ne!(len, 0);\n", "        let len = len;\n"))]),
+    ("a-h-self-rebind", "`let len = len;` (a re-binding of the same value: dropped by the normaliser)", "pass", [(S, sub("        debug_assert_ne!(len, 0);\n", "        let len = len;\n"))]),
+    ("a-l-shadow", "a shadowing `let len = len + 0;`", "lost", [(S, sub("        debug_assert_ne!(len, 0);\n", "        let len = len + 0;\n"))]),
     ("a-l-for-each", "clear via iter_mut().for_each", "lost", [(S, sub("        for bucket in &mut self.buckets {\n            bucket.clear();\n        }", "        self.buckets.iter_mut().for_each(|b| b.clear());"))]),
     ("a-l-clear-body", "clear loop with an empty body", "lost", [(S, sub("            bucket.clear();\n", ""))]),
     ("a-l-unknown-call", "call of an unknown method `self.grow()`", "lost", [(S, sub("        let next_capacity = self.bucket_capacity.get() * 2;", "        self.grow();\n        let next_capacity = self.bucket_capacity.get() * 2;"))]),
